@@ -252,6 +252,10 @@ def extract_branch_results_with_internals(net, branch_results, table_name,
             # pit is ordered like the table rows --> take the last section of each row from the
             # internal lookup and bring it into the sorted order
             last_section_rows = f + net["_lookups"]["internal_branches"][table_name][:, 1]
+            # with reverse flow the fluid leaves the branch through its first section
+            first_section_rows = f + net["_lookups"]["internal_branches"][table_name][:, 0]
+            reverse_flow = branch_pit[last_section_rows, FROM_NODE_T_SWITCHED].astype(bool)
+            last_section_rows = np.where(reverse_flow, first_section_rows, last_section_rows)
             indices_last_section = last_section_rows[placement_table].astype(int)[connected_ind]
             # hint: idx_pit[placement_table] should result in the indices as ordered in the table
             pt = placement_table[connected_ind]
